@@ -31,6 +31,31 @@ The property oracle (on the real object only, independent of the model), per cla
   ids too); plain: ⟨strategy played, regret added⟩ = 0 within 1e-4·scale and regret of revealed actions
   ≤ 0; plus: regret ≥ 0 and ⟨strategy, added⟩ ≥ −1e-4·scale; a saved-then-loaded minimiser has equal
   parameters and arrays and stays bit-identical over two further iterations.
+  "Saved-then-loaded … continues identically" for every load of a checkpoint (`checkpoint_again`): the
+  directory is loaded twice right away (A, and a sibling that is never iterated) and a third time (B) after A
+  ran the further iterations next to the original.  The sibling still equals the deep copy of the state taken
+  at save time (key `regret:checkpoint-aliasing`), B equals that copy and the saved params.json
+  (`regret:checkpoint-rewritten`), B — with its own oracle and its own model instance — then retraces the
+  original's further iterations bit for bit, and so does a twin that went through the same history without
+  ever being saved (`regret:history-determinism`); iterating B leaves A and the sibling alone.  Only values
+  are compared (not the array class or identity), so an eager, a copy-on-write-mapped … load are all fine.
+
+Ensembles (`ensemble`, "all histories" of SEVERAL minimisers in one process): 2–4 minimisers (same n and
+  limit plain next to plus, same n with different limits, different n, one configuration with two histories)
+  plus minimisers loaded from checkpoints of them are alive together, and a random schedule interleaves their
+  iterations with public `regret_matching_strategy` (id and coalition-list form) / `get_average_strategy`
+  queries at all nodes, saves, and loads (a checkpoint is loaded right after the save, again later, and once
+  more at the very end; a loaded minimiser retraces 0–2 of the saver's remaining iterations).  Each minimiser
+  has its own model instance (all lines as above) and its own property oracle (orthogonality is checked
+  against the strategies of its latest query whenever that query was made after its previous iteration).
+  In addition its tables, iteration outcome, current and average strategies are compared bit for bit with a
+  reference: the same configuration and history run alone before the ensemble exists (`solo_reference`,
+  itself under the oracle) — the state of a minimiser is a function of its own history
+  (`regret:instances-interfere`); every load is compared with the deep copy taken at its save
+  (`regret:save-load` for the first load, `regret:checkpoint-rewritten` once a minimiser loaded earlier from
+  the same directory has been iterated, `regret:checkpoint-aliasing` for a never-iterated loaded minimiser
+  that changed).  Replay input of an ensemble violation: {"ensemble": {"members", "schedule"}}; of a
+  checkpoint violation: n, limit, plus, history, saved_at.
 
 Non-trivial case = constructed, ≥ 2 iterations, at least one node played a non-uniform strategy (positive
 regret branch) and at least one node with revealed coalitions used the uniform fallback; distinct by
@@ -218,7 +243,7 @@ class Oracle:
                 self.bad("current strategy puts weight on an already revealed coalition", "regret:strategy-support",
                          node=mid, iteration=len(self.hist), strategy=a.tolist())
             free = [i for i in range(self.m) if i not in used]
-            if len(free) > 1:
+            if len(free) > 1 and a.shape == (self.m,):
                 if np.ptp(a[free]) > 1e-6:
                     self.nonuniform = True
                 elif used:
@@ -266,6 +291,8 @@ class Oracle:
             mid = ids[r]
             used = bits(mid)
             s = strat_before.get(mid)
+            if s is not None and s.shape != added[r].shape:
+                s = None                           # wrong length: reported by `strategies` when it was queried
             if self.plus:
                 if np.any(reg[r] < 0):
                     self.bad("plus variant: cumulative regret is negative after an iteration", "regret:plus-negative",
@@ -1175,6 +1202,18 @@ def search(tier: str, budget: Budget, rnd, arg, disagreements) -> list[dict]:
                     found.append({"what": what, "replay": replay, "key": key})
                 if rm is None:
                     break
+    tmp = Path(tempfile.mkdtemp(prefix="verif_rgt_", dir="/tmp"))
+    try:
+        for e, tpl in enumerate(ens_templates("thorough", rnd), start=1):
+            if not budget.ok() or len(found) >= 5:
+                break
+            if any(t[0] == 5 for t in tpl):
+                continue
+            got, _ = ensemble(res, None, e, gen_ensemble(rnd, tpl), rnd, tmp)
+            for what, rp, key in got[:1]:
+                found.append({"what": what, "replay": rp, "key": key})
+    finally:
+        shutil.rmtree(tmp, ignore_errors=True)
     return found
 
 
@@ -1185,11 +1224,21 @@ def replay(prop: str, payload: dict):
     res = StreamResult("regret-replay")
     tmp = Path(tempfile.mkdtemp(prefix="verif_rgt_", dir="/tmp"))
     try:
-        orc, _ = drive(res, None, "replay", "r", int(inp["n"]), int(inp["limit"]), bool(inp["plus"]),
-                       inp.get("history", []), random.Random(0), tmp)
+        if "ensemble" in inp:                      # several minimisers alive at once: members + schedule of events
+            found, _ = ensemble(res, None, 0, inp["ensemble"], random.Random(0), tmp)
+        else:
+            hist = inp.get("history", [])
+            at = inp.get("saved_at")               # the history was saved (and loaded) after this many iterations
+            if at is not None and 0 <= int(at) <= len(hist):
+                orc, _ = drive(res, None, "replay", "r", int(inp["n"]), int(inp["limit"]), bool(inp["plus"]),
+                               hist[:int(at)], random.Random(0), tmp, more_steps=hist[int(at):])
+            else:
+                orc, _ = drive(res, None, "replay", "r", int(inp["n"]), int(inp["limit"]), bool(inp["plus"]),
+                               hist, random.Random(0), tmp)
+            found = orc.found
     finally:
         shutil.rmtree(tmp, ignore_errors=True)
-    if orc.found:
-        what, _, key = orc.found[0]
+    if found:
+        what, _, key = found[0]
         return True, f"violated: {what} (key {key})"
     return False, "the replayed input no longer violates C14"
